@@ -266,3 +266,16 @@ add("C16",
     rule="crash states of the (cold,hot) pair after every mutating call of a 12-step history + every non-empty subset of hot files removed before repair; non-trivial = distinct canonical (cold,hot) states and distinct repaired subsets",
     require_counts=["cold_restores", "cold_prune_repacks", "cold_repair_index", "crash_states", "hot_subsets_removed"],
     )
+
+add("C19",
+    engine="SEQ",
+    level="model_checking",
+    technique="explicit-state BFS over alternating cached/uncached handle histories with the cache directory as part of the state, differential oracle against an uncached twin",
+    design_ref="DESIGN.md §4.1, §5 C19",
+    level_text="Breadth-first search (depth 3 quick / 4 thorough) from two initial states over {backup, get_all_snapshots, get_snapshots([full id]), forget, prune, check with and without trust-cache, read all snapshots} through a handle with a real cache directory on tmpfs - "
+               "each run in parallel through an uncached handle on a clone of the same repository: result (canonicalised Ok payload or Err) and resulting repository must be equal - interleaved with {backup, forget, prune} through an uncached handle (another process) "
+               "and the cache faults truncate a cached file, replace it by other bytes of the same size, plant junk names. After every operation that lists a file type, the cache must hold no snapshot/index file the repository lacks or stores with another size.",
+    level_note="The cache directory content is part of the canonical state (described by decoded file content, not by ids).",
+    shards={"quick": 16, "thorough": 16},
+    require_counts=["differential_comparisons", "action:TruncateCached", "action:uncached:Forget"],
+    )
